@@ -242,6 +242,7 @@ def extract_fragment(text, frag, key):
     kind 'match': the k-th `match` expression (in token order) of the function body; if `scrutinee` is given the
     scrutinee expression is replaced by that identifier. Result: `<sig> { <match expr> }`.
     kind 'closure': k-th closure `|..| {body}` or `|..| -> T {body}`; result `<sig> <body block>`.
+    kind 'stmt': ONE statement (loop / if / match / let) starting at the first match of regex `from`; result `<sig> { <statement> <tail> }`.
     kind 'tail': the statements of the body from the first match of regex `from` to its end; result `<sig> { <statements> }` (index unused).
     kind 'prefix': the statements of the body before the first match of regex `until`; result `<sig> { <statements> <tail> }` (index unused).
     """
@@ -331,6 +332,31 @@ def extract_fragment(text, frag, key):
         if not m:
             raise LostAnchor('%s: tail fragment: marker %r not found' % (key, frag['from'][:60]))
         return '%s {\n%s\n}' % (frag['sig'], text[m.start():b1]), {'from': frag['from'], 'dropped_bytes': m.start() - b0}
+    if kind == 'stmt':
+        # ONE statement of the body: from the first match of the regex `from` (which must start at a `for` / `while` / `if` / `match` keyword
+        # or a `let`) through the end of that statement (its closing brace, or the `;` for a let), as the body of a function
+        m = re.compile(frag['from']).search(text)
+        if not m:
+            raise LostAnchor('%s: stmt fragment: marker %r not found' % (key, frag['from'][:60]))
+        j = next((i for i, t in enumerate(toks) if t[2] >= m.start()), None)
+        if j is None:
+            raise LostAnchor('%s: stmt fragment: no token at marker' % key)
+        k = j
+        while k < len(toks):
+            t = toks[k]
+            if t[0] == 'p' and t[1] in ('(', '['):
+                k = match_close(toks, k) + 1
+                continue
+            if t[0] == 'p' and t[1] == '{':
+                end = toks[match_close(toks, k)][3]
+                break
+            if t[0] == 'p' and t[1] == ';':
+                end = t[3]
+                break
+            k += 1
+        else:
+            raise LostAnchor('%s: stmt fragment: statement end not found' % key)
+        return '%s {\n%s\n%s\n}' % (frag['sig'], text[toks[j][2]:end], frag.get('tail', '')), {'from': frag['from']}
     raise ValueError(kind)
 
 
